@@ -181,6 +181,7 @@ func runC05(c *rt.C) {
 	c.Sig("%s", sig)
 	c.Sample(witness)
 	// the restored instance keeps behaving like a set (C01-C03 continue on it)
+	h2model := NewModel()
 	if !c.Failed() {
 		h2 := &Hist{DB: fresh, Model: fresh.NewModel(), NKeys: nk, Versions: map[int]int{}}
 		for _, e := range target.Want {
@@ -217,11 +218,40 @@ func runC05(c *rt.C) {
 			c.Violate("restored-snapshot-isolation", "restored snapshot changed after further operations: "+d, witness)
 		}
 		h2.CloseAll()
+		h2model = h2.Model
 	}
 	res.snap.Close()
+	restoredClosed := false
+	if !c.Failed() && nk <= 64 && c.Index%3 == 0 {
+		// the restored instance also obeys C03: a contention burst by four new writers on its keys,
+		// histories checked with porcupine (the engine closes the instance at the end)
+		st := map[int]string{}
+		nkc := min(nk, 4)
+		for k := 0; k < nkc; k++ {
+			if it := h2model.Get(string(KeyBytes(k))); it != nil {
+				st[k] = "P"
+				if fresh.KV {
+					_, v := nitro.KVFromBytes(it)
+					st[k] = string(v)
+				}
+			}
+		}
+		ce := NewContendOn(c, CtdOpt{Mem: cfg.Mem, NWriters: 4, NKeys: nkc, Phases: 3, OpsPerW: 24, Mix: "mixed", Perturb: 1}, fresh, st)
+		ce.Run()
+		for _, p := range ce.probs {
+			if p.Prop == "C03" || p.Prop == "C04" {
+				c.Violate("restored-instance-"+p.Kind, "concurrent writers on the restored instance: "+p.Detail, witness)
+			}
+		}
+		c.Count("restored_instance_histories_checked", int64(ce.Histories))
+		restoredClosed = true
+	}
 	if !c.Failed() {
 		// original and restored instance: with every handle closed, GC() at quiescence must reach the newest snapshot
 		for which, d := range map[string]*DB{"restored": fresh, "original": db} {
+			if which == "restored" && restoredClosed {
+				continue
+			}
 			if which == "original" && keepRef {
 				continue // the harness still holds its extra reference of the stored snapshot
 			}
@@ -239,7 +269,9 @@ func runC05(c *rt.C) {
 		target.S.Close()
 	}
 	if !c.Failed() {
-		fresh.N.Close()
+		if !restoredClosed {
+			fresh.N.Close()
+		}
 		db.N.Close()
 	}
 }
